@@ -476,11 +476,15 @@ func c11FlushBound(p *P, r *R) {
 		return
 	}
 	var sel *ssa.Select
-	allInstrs(f, func(in ssa.Instruction) {
-		if s, ok := in.(*ssa.Select); ok && s.Blocking {
-			sel = s
-		}
-	})
+	_, wr := p.putFamily()
+	for _, g := range append([]*ssa.Function{f}, wr...) {
+		allInstrs(g, func(in ssa.Instruction) {
+			if s, ok := in.(*ssa.Select); ok && s.Blocking && sel == nil {
+				sel = s
+				f = g
+			}
+		})
+	}
 	if sel == nil {
 		r.fail("R11.5", "Flush: retry select", p.pos(f.Pos()), "not found")
 		return
